@@ -1031,6 +1031,18 @@ YR_API char* yr_compiler_get_error_message(
   case ERROR_DIVISION_BY_ZERO:
     snprintf(buffer, buffer_size, "division by zero");
     break;
+  case ERROR_INVALID_OPERAND:
+    snprintf(buffer, buffer_size, "invalid operand");
+    break;
+  case ERROR_TOO_MANY_ARGUMENTS:
+    snprintf(buffer, buffer_size, "too many arguments in function call");
+    break;
+  case ERROR_INVALID_ARGUMENT:
+    snprintf(buffer, buffer_size, "invalid argument");
+    break;
+  case ERROR_INVALID_FORMAT:
+    snprintf(buffer, buffer_size, "invalid format");
+    break;
   case ERROR_REGULAR_EXPRESSION_TOO_LARGE:
     snprintf(buffer, buffer_size, "regular expression is too large");
     break;
